@@ -2,7 +2,7 @@
 case format / comparison: gen/rollcommon.py (shared with C05, C17)."""
 import itertools
 from gen import rollcommon as rc
-from gen.rollcommon import model_lines, compare, classify, describe, extra_coverage  # noqa: F401
+from gen.rollcommon import model_lines, compare, classify, describe, extra_coverage, run_impl  # noqa: F401
 
 RULE = ("boundary sweep: limit in {0,1,2,10,1023,1024,1025} x pre-existing active file in {absent, 0, limit-1, "
         "limit, limit+1 bytes} x first build in append/truncate mode x every sequence of 1 and 2 record sizes from "
